@@ -325,7 +325,7 @@ func main() {
 				hasRoot = true
 				root = []any{&T4{N: 3}, T4{N: 5}, &T1{Name: "Bob", Age: 41, Tags: []string{"x"}}, T1{Name: "Ann", Age: 30, Inner: &T2{X: 4}},
 					(*T1)(nil), T3{T2{X: 6}, 7}, &T3{T2{X: 8}, 9}, &T2{X: 2}, map[string]any{"Name": "m", "len": int64(5)}, nil}[r.Intn(10)]
-				name := r.Pick([]string{"N", "Next", "Self", "Name", "Age", "Tags", "Inner", "Hello", "PtrM", "GetX", "X", "Y", "hidden", "nosuch", "len", "true", "string", "M"})
+				name := r.Pick([]string{"N", "Next", "Self", "Name", "Age", "Tags", "Inner", "Hello", "PtrM", "GetX", "X", "Y", "hidden", "nosuch", "len", "true", "string", "M", "Load", "Try"})
 				if root != nil && r.Chance(70) { // mostly a name the value's type knows: its fields, its methods and those of its pointer type
 					var own []string
 					rt := reflect.TypeOf(root)
@@ -368,7 +368,11 @@ func main() {
 									class = "err"
 								}
 							}()
-							v = reflect.ValueOf(v).Call(nil)[0].Interface()
+							out := reflect.ValueOf(v).Call(nil)
+							v = out[0].Interface()
+							if len(out) == 2 && !out[1].IsNil() {
+								class = errClass(out[1].Interface().(error))
+							}
 						}()
 					}
 				case 1:
@@ -390,10 +394,21 @@ func main() {
 				case class == "nosuch":
 					want = "ERR nosuch LOG "
 				case src != name:
-					want = "ERR err LOG "
+					want = "ERR " + class + " LOG "
 				default:
 					want = "" // an unexported field: the correspondence with the model decides
 				}
+			case c < 8: // call forms the generators above do not write: variadic calls, results that are not (value[, error])
+				misc := [][2]string{
+					{"cat(st.Tags...)", "OK s97.98 LOG "}, {"cat('x', st.Tags...)", "OK s120.97.98 LOG "}, {"cat(emp...)", "OK s LOG "},
+					{"cat(s...)", "ERR err LOG "}, {"cat(ns...)", "ERR err LOG "}, {"cat(i...)", "ERR err LOG "}, {"cat(nilv...)", "ERR err LOG "},
+					{"two()", "ERR err LOG "}, {"none()", "ERR err LOG "}, {"two() + 1", "ERR err LOG "}, {"cat(two())", "ERR err LOG "},
+					{"one(1)", "ERR err LOG "}, {"add(1)", "ERR err LOG "}, {"add(1, 's')", "ERR err LOG "}, {"cat('a', 1)", "ERR err LOG "},
+					{"string(s)", "OK s104.105 LOG "}, {"cat(string(s), s)", "OK s104.105.104.105 LOG "}, {"s()", "ERR err LOG "}, {"st.Name()", "ERR err LOG "},
+					{"ident(fail)()", "ERR user1 LOG "}, {"ident(one)()", "OK i4:1 LOG "}, {"(one)()", "OK i4:1 LOG "},
+				}
+				k := r.Intn(len(misc))
+				src, want, tag = misc[k][0], misc[k][1], "misc"
 			case c < 45: // operators (C09, C11)
 				g := &exGen{r: r, env: env, newlines: r.Chance(20)}
 				e := g.Gen("?", 1+r.Intn(6))
@@ -454,6 +469,8 @@ func main() {
 				if tag == "instr-right-ternary" && why != "" {
 					c12 = "KF-ternary-right-assoc " + why
 				}
+			case tag == "misc":
+				c12 = why
 			default:
 				c13 = why
 			}
